@@ -358,7 +358,8 @@ struct HistCfg {
   long c_sparse_hi = 64;  // else up to this
   bool fresh_twin = false;
   int p_after_fail_reset = 50;  // % of failed calls followed by an explicit set_offset
-  bool count_on_fit = false;    // allow counting calls while fitting is on (containment only)
+  bool count_on_fit = false;    // allow counting calls while fitting is on (what they emit is left open: containment only;
+                                // the chunk setting survives them like any other call)
   int reject_pct = 15;
 };
 
@@ -438,7 +439,6 @@ void gen_history_task(Gen &g, Task &t, const HistCfg &cfg) {
       std::vector<std::string> lines = split_lines(f.data);
       if (m.offset_unspec || m.chunk_unknown || (counting && m.chunk > 0)) {
         m.offset_unspec = true;
-        if (counting && m.chunk > 0) m.chunk_unknown = true;
       } else {
         long end = 0;
         int mode = counting ? M_COUNT : (m.chunk > 0 ? M_FIT : M_PLAIN);
@@ -556,8 +556,7 @@ void gen_history_task(Gen &g, Task &t, const HistCfg &cfg) {
       o.fresh_twin = cfg.fresh_twin && m.offset_explicit && m.chunk == 0 && !m.chunk_unknown;
       t.ops.push_back(o);
       if (m.chunk > 0 || m.chunk_unknown) {
-        m.offset_unspec = true;
-        m.chunk_unknown = true;
+        m.offset_unspec = true;  // what such a call emits is left open; the instance's chunk setting is not touched by it
       } else if (!m.offset_unspec) {
         long end = 0;
         int fr = walk_expect(m, o.lines, M_COUNT, o.c, m.offset, &end, nullptr, nullptr);
@@ -754,6 +753,7 @@ void gen_c13(Gen &g) {
   cfg.w_exec = 0;
   cfg.max_ops = 24;
   cfg.fit_bias = 92;
+  cfg.count_on_fit = true;  // fitting must still be on, with the same size, after a counting call
   cfg.reject_pct = 5;
   cfg.allow_internal = true;
   cfg.p_after_fail_reset = 90;
@@ -955,6 +955,7 @@ void gen_c15(Gen &g) {
   cfg.w_debug = 3;
   cfg.w_other_inst = 6;
   cfg.fresh_twin = true;
+  cfg.count_on_fit = true;
   cfg.w_repeat = 12;
   cfg.allow_internal = true;
   cfg.n_lo = 64;
